@@ -26,6 +26,11 @@ class VirtualLoop(asyncio.SelectorEventLoop):
         self.idle_hooks: list[Callable[[], None]] = []
         self.busy_iterations = 0  # consecutive iterations without the clock moving
         self.max_busy = 2_000_000
+        # Virtual time normally stands still while the loop is busy: a frame read from the port reaches its last
+        # handler, several call_soon hops later, at the very instant it was read.  On a real host each hop takes a
+        # little time, so a frame read just before a deadline can reach its handler in the iteration in which that
+        # deadline's timer fires.  A scenario that wants such coincidences gives busy iterations a duration.
+        self.busy_cost = 0.0
         self.jumps = 0
         self.coincidences = 0  # iterations in which >1 timer became due at once
         self.unhandled: list[dict[str, Any]] = []
@@ -35,6 +40,7 @@ class VirtualLoop(asyncio.SelectorEventLoop):
         def select(timeout: float | None = None):  # type: ignore[no-untyped-def]
             events = inner(0)
             if events or timeout == 0:
+                self._vt += self.busy_cost  # (0 unless a scenario gives loop iterations a duration)
                 self.busy_iterations += 1
                 if self.busy_iterations > self.max_busy:
                     raise Starved("virtual clock starved by a busy loop")
